@@ -56,19 +56,23 @@ func symxC09() {
 	symxNow = 10
 	A, B := symxNewNode(1), symxNewNode(2)
 	bulkMany := false
+	// the gossip layer may pick the broadcasts up after every change or only after several
+	late := rt.Bool("drain_only_at_the_end")
 	for step := 0; step < ops; step++ {
 		symxNow += 10
 		before := A.view()
 		kind := symxLocalOp(A, 1, step)
 		after := A.view()
-		payloads := rt.Drain(A.q)
-		if !symxSameView(before, after) {
-			rt.Assert(len(payloads) >= 1, "C09.visible_change_is_broadcast")
+		if !late || step == ops-1 {
+			payloads := rt.Drain(A.q)
+			if !symxSameView(before, after) {
+				rt.Assert(len(payloads) >= 1, "C09.visible_change_is_broadcast")
+			}
+			for _, p := range payloads {
+				B.st.NotifyMsg(p)
+			}
+			rt.Assert(symxSameView(after, B.view()), "C09.peer_lists_the_same_after_broadcast")
 		}
-		for _, p := range payloads {
-			B.st.NotifyMsg(p)
-		}
-		rt.Assert(symxSameView(after, B.view()), "C09.peer_lists_the_same_after_broadcast")
 		if (kind == 2 && before.sessN-after.sessN >= 2) || ((kind == 5 || kind == 6) && before.subsN-after.subsN >= 2) {
 			bulkMany = true
 		}
